@@ -196,7 +196,7 @@ def check(col: Collector, tier: str):
     col.add("C13.R4", "cpp_variable.update_type", "initial-value-retyped-with-the-variable", "_initial_value._cpp_type = new_type" in s and "cpp_value.update_type(self, new_type)" in s,
             "the declaration's initialiser must follow the variable's new type", cv.loc)
     ca = [c for c in ast.walk(ag.node) if isinstance(c, ast.Call) and call_name(c) == "_create_accumulator"]
-    ok = len(ca) == 1 and src(kwarg(ca[0], "acc_type")) == "init_val.cpp_type()" and src(kwarg(ca[0], "initial_value")) == "init_val"
+    ok = len(ca) == 1 and src(arg(ca[0], 1, "acc_type")) == "init_val.cpp_type()" and src(kwarg(ca[0], "initial_value")) == "init_val"
     col.add("C13.R10", ag.short, "accumulator-takes-the-seed's-type-and-value", ok, "", ag.loc)
     cat = repo.function("check_accumulator_type")
     from sa.core.paths import substituted_paths
